@@ -28,7 +28,7 @@ Reached(via, opts) ==
    /\ StillOpen(5) => ~(HasEdge(via, "schema", "discriminator") \/ HasEdge(via, "schema", "xml"))
 
 (* the loader refuses a reference whose target is missing wherever it looks for references at all *)
-LoaderVisits(x) == ~UnvisitedByLoader(x) /\ ~HasEdge(x.via, "mediaType", "encoding") /\ ~HasEdge(x.via, "header", "examples")
+LoaderVisits(x) == StillOpen(10) => (~UnvisitedByLoader(x) /\ ~HasEdge(x.via, "mediaType", "encoding") /\ ~HasEdge(x.via, "header", "examples"))
 
 ValidateSees(doc, v, opts) ==
    /\ Reached(v.via, opts)
